@@ -388,13 +388,14 @@ Definition fragment_tpl : list tok :=
   ++ lex "pub fn fragment_state<'a, const N: usize>(module: &'a wgpu::ShaderModule, entry: &'a FragmentEntry<N>,) -> wgpu::FragmentState<'a> { wgpu::FragmentState { module, entry_point: Some(entry.entry_point), targets: &entry.targets, compilation_options: wgpu::PipelineCompilationOptions { constants: &entry.constants, ..Default::default() }, } }".
 
 (** ** lib.rs: SOURCE / create_shader_module / PUSH_CONSTANT_STAGES / create_pipeline_layout *)
-Definition r_source (s : out_source) : list tok :=
-  lex "pub const SOURCE: &str ="
-  ++ match s with
-     | SrcEmbedded v => [TS v]
-     | SrcInclude p => lex "include_str!(" ++ [TS p; T ")"]
-     end
-  ++ lex "; pub fn create_shader_module(device: &wgpu::Device) -> wgpu::ShaderModule { let source = std::borrow::Cow::Borrowed(SOURCE); device.create_shader_module(wgpu::ShaderModuleDescriptor { label: None, source: wgpu::ShaderSource::Wgsl(source) }) }".
+Definition source_head : list tok := lex "pub const SOURCE: &str =".
+Definition r_source_item (s : out_source) : list tok :=
+  match s with
+  | SrcEmbedded v => [TS v]
+  | SrcInclude p => lex "include_str!(" ++ [TS p; T ")"]
+  end.
+Definition source_tail : list tok :=
+  lex "; pub fn create_shader_module(device: &wgpu::Device) -> wgpu::ShaderModule { let source = std::borrow::Cow::Borrowed(SOURCE); device.create_shader_module(wgpu::ShaderModuleDescriptor { label: None, source: wgpu::ShaderSource::Wgsl(source) }) }".
 
 Definition r_pc_range (r : out_pc_range) : list tok :=
   lex "wgpu::PushConstantRange { stages:" ++ [T (if pr_stages_const r then "PUSH_CONSTANT_STAGES" else "?")]
@@ -405,23 +406,30 @@ Definition r_pipeline_layout (o : out) : list tok :=
   ++ comma_sep (map (fun n => lex "&bind_groups::" ++ [idn "BindGroup" n] ++ lex "::get_bind_group_layout(device)") (o_pl_groups o))
   ++ lex "], push_constant_ranges: &[" ++ flat_map r_pc_range (o_pc_ranges o) ++ lex "], }) }".
 
-(** ** the whole module, in the order of the final [quote!] *)
-Definition render (o : out) : list tok :=
-  flat_map r_struct (o_structs o)
-  ++ flat_map r_const (o_consts o)
+(** ** the whole module, in the order of the final [quote!]:
+    structs | everything up to SOURCE | SOURCE's initialiser | the rest *)
+Definition render_mid (o : out) : list tok :=
+  flat_map r_const (o_consts o)
   ++ match o_overrides o with Some ov => r_overrides ov | None => [] end
   ++ match o_bind_groups o with Some bg => r_bind_groups bg | None => [] end
   ++ flat_map r_vstruct (o_vstructs o)
   ++ r_compute (o_compute o)
   ++ flat_map r_entry_const (o_entry_consts o)
   ++ (if o_vertex_tpl o then vertex_tpl else []) ++ flat_map r_ventry (o_ventries o)
-  ++ (if o_fragment_tpl o then fragment_tpl else []) ++ flat_map r_fentry (o_fentries o)
-  ++ r_source (o_source o)
+  ++ (if o_fragment_tpl o then fragment_tpl else []) ++ flat_map r_fentry (o_fentries o).
+
+Definition render_post (o : out) : list tok :=
+  source_tail
   ++ match o_pc_stages o with
      | Some s => lex "pub const PUSH_CONSTANT_STAGES: wgpu::ShaderStages =" ++ r_stages s ++ [T ";"]
      | None => []
      end
   ++ r_pipeline_layout o.
+
+Definition render_rest (o : out) : list tok :=
+  render_mid o ++ source_head ++ r_source_item (o_source o) ++ render_post o.
+
+Definition render (o : out) : list tok := flat_map r_struct (o_structs o) ++ render_rest o.
 
 Definition render_canon (o : out) : list tok := canon (render o).
 
